@@ -247,6 +247,8 @@ def gammastd_yxt(
                         continue
                     s[ti] = s[ti] * 1000
                 np.round(s, 0, s)
+                # saturate instead of wrapping when the index leaves int16 (or is infinite)
+                np.clip(s, -32768, 32767, s)
                 y[ri, ci, :] = s[:]
 
     return y
@@ -286,6 +288,8 @@ def gammastd_grp(xx, groups, num_groups, nodata, cal_indices, yy):
             valid_ix = res != nodata
             res[valid_ix] = res[valid_ix] * 1000
             np.round(res, 0, res)
+            # saturate instead of wrapping when the index leaves int16 (or is infinite)
+            np.clip(res, -32768, 32767, res)
         yy[grp_ix] = res[:]
 
 
